@@ -13,7 +13,7 @@ bool inside_live_backend_block(const void* p, size_t n, uint32_t* serial) {
     uintptr_t base = g_arena[A_HEAP].base;
     if (a < base || a - base >= g_arena[A_HEAP].size) return false;
     uint32_t off = (uint32_t)(a - base);
-    for (auto& b : g.blocks) if (b.live && off >= b.off && (uint64_t)off + n <= (uint64_t)b.off + b.size) { if (serial) *serial = b.serial; return true; }
+    for (auto& b : g.blocks) if (b.live && off >= b.off && n <= b.size && (size_t)(off - b.off) <= b.size - n) { if (serial) *serial = b.serial; return true; }
     return false;
 }
 }  // namespace
